@@ -823,17 +823,23 @@ def rule_ex11(A: Analysis, rep, F: ExecFacts):
 def rule_ex12(A: Analysis, rep, F: ExecFacts):
     q = EXE + "_ReadyToRunQueue."
     en = A.fn(q + "enqueue_op")
-    ifs = [s for s in en.node.body if isinstance(s, ast.If)]
     ok = False
     par_q = seq_q = None
-    if len(ifs) == 1:
-        i = ifs[0]
-        op = en.params[1]
-        if norm(i.test) == "%s.parallelizable" % op and len(i.body) == 1 and len(i.orelse) == 1:
-            b, o = norm(i.body[0]), norm(i.orelse[0])
-            if b.endswith(".append(%s)" % op) and o.endswith(".append(%s)" % op):
-                par_q, seq_q = b.split(".append")[0], o.split(".append")[0]
-                ok = par_q != seq_q
+    op = en.params[1]
+    ge = A.cfg(en, "plain")
+    apps = [n for n in ge.nodes if n.kind == "stmt" and isinstance(n.ast, ast.Expr) and isinstance(n.ast.value, ast.Call) and
+            isinstance(n.ast.value.func, ast.Attribute) and n.ast.value.func.attr == "append" and len(n.ast.value.args) == 1 and norm(n.ast.value.args[0]) == op]
+    if len(apps) == 2:
+        routed = {}
+        for n in apps:
+            gs = A.path_guards(ge, ge.entry, n, en)
+            if gs == [frozenset({("t(%s.parallelizable)" % op, True)})]:
+                routed["par"] = norm(n.ast.value.func.value)
+            elif gs == [frozenset({("t(%s.parallelizable)" % op, False)})]:
+                routed["seq"] = norm(n.ast.value.func.value)
+        if len(routed) == 2 and routed["par"] != routed["seq"]:
+            par_q, seq_q = routed["par"], routed["seq"]
+            ok = True
     rep.check(ok, "EX12", "enqueue routes by parallelizable", en.node, "parallelizable ops go to the parallel deque, others to the sequential deque",
               "enqueue_op does not route ops by `op.parallelizable` into two distinct queues")
     hp = A.fn(q + "has_parallelizable_ops")
@@ -842,16 +848,23 @@ def rule_ex12(A: Analysis, rep, F: ExecFacts):
     rep.check(ok and d == [frozenset({("empty(%s)" % par_q, False)})], "EX12", "has_parallelizable_ops tests the parallel deque", hp.node,
               "", "has_parallelizable_ops() is [%s], parallel deque is %s" % (" | ".join(fmt_conj(c) for c in d), par_q))
     dqf = A.fn(q + "dequeue_next")
-    ifs = [s for s in dqf.node.body if isinstance(s, ast.If)]
     okd = False
-    if ok and len(ifs) == 1:
-        i = ifs[0]
-        dd = A.dnf(i.test, True, dqf)
-        t_ok = dd == [frozenset({("t(self.has_parallelizable_ops())", True)})] or dd == [frozenset({("empty(%s)" % par_q, False)})]
-        okd = t_ok and len(i.body) == 1 and norm(i.body[0]) == "return %s.popleft()" % par_q and \
-            len(i.orelse) == 1 and norm(i.orelse[0]) == "return %s.popleft()" % seq_q
-    rep.check(okd, "EX12", "dequeue prefers parallel", dqf.node, "when a parallelizable op is ready it is the one dequeued (FIFO)",
-              "dequeue_next does not return the parallel deque's head when it is non-empty, else the sequential head")
+    detd = "dequeue_next does not return the parallel deque's head when it is non-empty, else the sequential head"
+    if ok:
+        from ..analysis import _simplify
+        gd = A.cfg(dqf, "plain")
+        by_val = {}
+        for n in gd.nodes:
+            if n.kind == "stmt" and isinstance(n.ast, ast.Return) and n.ast.value is not None:
+                for c, v in A.rvalues(dqf, n.ast.value, n, gd):
+                    # the predicate was shown above to be exactly "parallel deque non-empty"
+                    c2 = frozenset((("empty(%s)" % par_q, not p_) if a == "t(self.has_parallelizable_ops())" else (a, p_)) for a, p_ in c)
+                    by_val.setdefault(v, []).append(c2)
+        tab = {v: sorted(map(sorted, _simplify(cs))) for v, cs in by_val.items()}
+        want = {"%s.popleft()" % par_q: [[("empty(%s)" % par_q, False)]], "%s.popleft()" % seq_q: [[("empty(%s)" % par_q, True)]]}
+        okd = tab == want
+        detd += " (returns %s)" % {v: [fmt_conj(frozenset(c)) for c in cs] for v, cs in tab.items()}
+    rep.check(okd, "EX12", "dequeue prefers parallel", dqf.node, "when a parallelizable op is ready it is the one dequeued (FIFO)", detd)
     # parallelizable of the op comes from the task / constructor flag
     rt = A.fn("execution.ops.run_task_executable.RunTaskExecutable.parallelizable")
     r = [x for x in walk_local(rt.node) if isinstance(x, ast.Return)]
